@@ -39,7 +39,7 @@ Program(kind, s, form, la, lb, mode, ld, same) ==
 
 Next ==
     /\ steps = <<>>
-    /\ \E kind \in Kinds, s \in Shapes, form \in Forms, la \in LayA, lb \in LayB, mode \in Modes, ld \in LayD, same \in {0, 1} :
+    /\ \E kind \in Kinds \ {"FMA"}, s \in Shapes, form \in Forms, la \in LayA, lb \in LayB, mode \in Modes, ld \in LayD, same \in {0, 1} :
          /\ LayoutOK(la, s)
          /\ (form = "TT" /\ kind # "Unary") => LayoutOK(lb, s)
          /\ ~(form = "TT" /\ kind # "Unary") => lb = CHOOSE x \in LayB : TRUE      \* no second tensor: one representative
@@ -65,7 +65,18 @@ NextMismatch ==
                     IF kind = "Arith" THEN Op("Arith", 1, <<"OP", "TT", 2, "safe", 0>>)
                     ELSE Op("Cmp", 1, <<"OP", "TT", 2, "safe", 0, 0>>)>>)
 
-Spec == Init /\ [][Next \/ NextMismatch]_vars
+(* fused multiply-add (C20): Y := A * X + Y with X a tensor or a scalar *)
+NextFMA ==
+    /\ steps = <<>> /\ "FMA" \in Kinds
+    /\ \E s \in Shapes, la \in LayA, lb \in LayB, ld \in LayD, form \in {"T", "S"} :
+         /\ LayoutOK(la, s) /\ LayoutOK(ld, s) /\ (form = "T" => LayoutOK(lb, s))
+         /\ form = "S" => lb = CHOOSE x \in LayB : TRUE
+         /\ LET ra == Recipe(la, s, 1, "")
+                rb == IF form = "T" THEN Recipe(lb, s, 1 + ra.n, "") ELSE [ops |-> <<>>, h |-> 1, n |-> 0]
+                rd == Recipe(ld, s, 1 + ra.n + rb.n, "")
+            IN DoAll(ra.ops \o rb.ops \o rd.ops \o <<Op("FMA", ra.h, <<form, rb.h, rd.h>>)>>)
+
+Spec == Init /\ [][Next \/ NextMismatch \/ NextFMA]_vars
 
 CaseRec == [fam |-> "elem", steps |-> steps, live |-> live, heap |-> heap, allocs |-> allocs]
 Emit == IF steps # <<>> THEN PrintT(<<"CASE", ToJson(CaseRec)>>) ELSE TRUE
